@@ -15,6 +15,7 @@ import subprocess
 import tempfile
 
 import numpy as np
+import pandas as pd
 
 from harness import common as C
 from harness import election as E
@@ -45,8 +46,15 @@ def extract(run):
 def make_election(seed):
     rng = random.Random(seed)
     # three states: the bootstrap estimator then has several contests with a contest effect (their draws are sampled jointly)
-    return E.gen_election(rng, size="small", roles=["reporting"] * 6 + ["partial"] * 3 + ["zero-percent", "blocklisted", "third-party-heavy", "third-party-heavy"],
-                          min_reporting=14, n_states=3)
+    e = E.gen_election(rng, size="small", roles=["reporting"] * 6 + ["partial"] * 3 + ["zero-percent", "blocklisted", "third-party-heavy", "third-party-heavy"],
+                       min_reporting=14, n_states=3)
+    # early in the night: a unit that is not in the prepared data, in a county that is not there either, without a vote yet - an
+    # aggregate group whose two-party turnout is exactly zero (its margin is 0 / 0, which the code maps to 0: equal runs, equal tables)
+    r = E.unexpected_row(rng, e, e.pre.to_dict(orient="records"), kind="unknown-county", votes=(0, 0))
+    if r["geographic_unit_fips"] not in set(e.cur["geographic_unit_fips"]):
+        r["results_turnout"] = 0
+        e.cur = pd.concat([e.cur, pd.DataFrame([r])], ignore_index=True)
+    return e
 
 
 def make_big_election(seed):
@@ -57,9 +65,25 @@ def make_big_election(seed):
                           unexpected=False, n_districts=2, per_state_min=56)
 
 
+def _limits(seed):
+    """unit-selection parameters that only the "lim" argument set passes: turnout-factor limits that exclude a few (not many) reporting
+    units of the election, a unit blocklist naming one more, another cut-off of the outlier models"""
+    e = make_election(seed)
+    m = e.cur.merge(e.pre[["geographic_unit_fips", "baseline_turnout"]], on="geographic_unit_fips")
+    m = m[(m["percent_expected_vote"] >= e.threshold) & (m["baseline_turnout"] > 0)]
+    tf = sorted((m["results_turnout"] / m["baseline_turnout"]).tolist())
+    lo = (tf[1] + tf[2]) / 2 if len(tf) > 8 else 0.5
+    hi = (tf[-2] + tf[-3]) / 2 if len(tf) > 8 else 2.0
+    ids = m["geographic_unit_fips"].tolist()
+    return {"turnout_factor_lower": float(lo), "turnout_factor_upper": float(hi), "unit_blocklist": ids[len(ids) // 2: len(ids) // 2 + 1],
+            "outlier_z_threshold": 1.0}
+
+
 def argsets(seed):
     rng = random.Random(seed + 1)
     return {
+        "lim": dict(pi_method="nonparametric", estimands=["turnout"], alphas=[0.5], features=[], aggregates=["postal_code", "unit"],
+                    params=_limits(seed)),
         "boD": dict(_election="big", pi_method="bootstrap", estimands=["margin"], alphas=[0.9], features=["baseline_normalized_margin"],
                     aggregates=["postal_code", "district", "unit"], params={"B": 6, "lambda_": 1.0}),
         "gaB": dict(_election="big", pi_method="gaussian", estimands=["turnout"], alphas=[0.7], features=[],
@@ -113,6 +137,7 @@ def run_history(history, seed):
                               aggregates=["postal_code", "unit"])
             dg = lambda x: P.digest(x["tables"]) if "tables" in x else "raises:" + x["raises"]  # noqa: E731
             out.append("other:" + dg(r) + "|fresh:" + dg(r2))
+            last = None     # the client's last estimate run is now this one: a summary asked next is a question about it
         elif h[0] == "fresh":
             el, a = el_args(h[1])
             r = E.run_client(el, **a)
@@ -190,6 +215,9 @@ def gen_history(rng, other=None, big=False):
     # another election on the same client in between (half of the histories)
     if (rng.random() < 0.5) if other is None else other:
         h.insert(rng.randint(0, max(0, len(h) - 1)), ["other"])
+    # a run that passes unit-selection parameters nobody else passes (limits, a blocklist, an outlier cut-off), then a repeat
+    if not big:
+        h.append(["est", "lim"])
     # make sure something repeats, and add fresh-client references
     h.append(["est", keys[0]])
     if keys[0] in ("bo", "bo2", "boD"):
@@ -224,6 +252,7 @@ def check_history(run, case, history, digests, where):
                               + where + ")", input=case, impl=[a[:40], b[:40]], predicate="estimate_history_independent",
                               signature="C12:estimate")
                 return False
+            last_est = "other"
             continue
         if h[0] == "cached":
             a, b = d[len("cached:"):].split("|")
@@ -336,11 +365,65 @@ def natsum_repeat_stage(run, n):
             return
 
 
+class uninitialised:
+    """`np.empty` / `np.empty_like` promise nothing about the content of the buffer they return (in a live process: whatever earlier
+    runs left on the heap).  Inside this context they return buffers filled with `fill`, which is within their contract; a table that
+    changes with `fill` is a table that depends on uninitialised memory, i.e. on the history of the process."""
+
+    def __init__(self, fill):
+        self.fill = fill
+
+    def __enter__(self):
+        self.saved = (np.empty, np.empty_like)
+        e0, el0, fill = np.empty, np.empty_like, self.fill
+
+        def empty(*a, **kw):
+            out = e0(*a, **kw)
+            if out.dtype.kind == "f":
+                out.fill(fill)
+            return out
+
+        def empty_like(*a, **kw):
+            out = el0(*a, **kw)
+            if isinstance(out, np.ndarray) and out.dtype.kind == "f":
+                out.fill(fill)
+            return out
+
+        np.empty, np.empty_like = empty, empty_like
+
+    def __exit__(self, *e):
+        np.empty, np.empty_like = self.saved
+
+
+def uninitialised_stage(run, seeds):
+    """equal arguments, two contents of the uninitialised buffers: the tables must not notice"""
+    for seed in seeds:
+        e = make_election(seed)
+        for key, a in argsets(seed).items():
+            if a.get("_election") == "big":
+                continue
+            dg = []
+            for fill in (0.0, -7.25):
+                with uninitialised(fill):
+                    r = E.run_client(e, **a)
+                dg.append(P.digest(r["tables"]) if "tables" in r else "raises:" + r["raises"])
+            case = {"election_seed": seed, "arguments": key, "uninitialised_buffers_filled_with": [0.0, -7.25]}
+            run.case(case, True)
+            run.count("uninitialised-buffer pairs")
+            if dg[0] != dg[1]:
+                run.violation("two estimate runs with equal arguments return different tables when the buffers handed out by np.empty / "
+                              "np.empty_like hold different left-overs (in a live process: what earlier runs left on the heap)", input=case,
+                              impl={"digests": [d[:12] for d in dg]}, predicate="estimate_history_independent",
+                              signature="C12:uninitialised")
+                return
+
+
 def explore(run, driver, budget):
     run.info["rule"] = RULE
     n = {"quick": 2, "thorough": 40, "search": 8}[budget]
     rng = run.rng
     agg_lists(run, driver)
+    uninitialised_stage(run, [rng.randint(0, 10**6) for _ in range({"quick": 1, "thorough": 12, "search": 3}[budget])])
     natsum_repeat_stage(run, {"quick": 150, "thorough": 5000, "search": 1000}[budget])
     if driver is not None:
         run.info["randomness_sources"] = driver.run([{"op": "det.sites"}])[0]
